@@ -366,8 +366,16 @@ def _impl_path(sess):
             continue
         loads = []
         for off in range(4, len(cd), 32):
-            brs = load(cd, off, path)
-            loads.append([off, _word_kind(cells, off), brs])
+            kind = _word_kind(cells, off)
+            p = path
+            if kind[0] == "sym":
+                # every load is made by an execution of its own (a successor of the final path): the state that
+                # executes CALLDATALOAD is consumed by the branching, only its successors live on
+                nb += 1
+                p = path.branch(z3.Bool(f"c12_cond_{nb}"))
+                p.activate()
+            brs = load(cd, off, p)
+            loads.append([off, kind, brs])
         obs["cds"].append({"fun": fi, "len": len(cd), "loads": loads, "syms": sorted({c[1] for c in cells if c[0] == "s"})})
     return obs
 
